@@ -55,6 +55,11 @@ inline void noTone(int pin) { printf("N:%d\n", pin); }
 #define min(a,b) ((a)<(b)?(a):(b))
 #define max(a,b) ((a)>(b)?(a):(b))
 #endif
+// Arduino.h defines abs/round as macros too (after <cmath>/<cstdlib>, as the AVR core does)
+#undef abs
+#define abs(x) ((x)>0?(x):-(x))
+#undef round
+#define round(x)     ((x)>=0?(long)((x)+0.5):(long)((x)-0.5))
 #define constrain(amt,low,high) ((amt)<(low)?(low):((amt)>(high)?(high):(amt)))
 class String {
  public:
